@@ -50,6 +50,12 @@ COUPLED = {
     "GenBankFile": (GB, {"_field_pos"}, "_find_field_indices"),
     "GFFFile": (GFF, {"_entries", "_directives"}, "_index_entries"),
 }
+# methods that shift the positions themselves instead of re-indexing (read and confirmed: the shift covers every later entry)
+SHIFTING_UPDATES = {
+    ("GenBankFile", "__setitem__"): "shifts start and stop of every later field by the difference of the line counts (R3 rules read the shift)",
+    ("GenBankFile", "__delitem__"): "shifts start and stop of the field and every later one by the number of deleted lines, then drops the entry",
+    ("GenBankFile", "insert"): "shifts start and stop of every field from the insertion point on by the number of inserted lines",
+}
 LIST_MUTATORS = {"append", "insert", "extend", "pop", "remove", "clear", "sort", "reverse"}
 SANGER_TABLE = {"Sanger": 33, "Solexa": 64, "Illumina-1.3": 64, "Illumina-1.5": 64, "Illumina-1.8": 33}
 
@@ -264,19 +270,13 @@ def file_mode_rules(ctx, prefix="R1"):
                "a wrapper around a text stream is a text file (and one around a binary stream is not): the function computes " + shown, f.lineno)
 
 
-def run(ctx):
-    file_mode_rules(ctx, "R1")
-    rna_spelling_rules(ctx)
-    nucleotide_text_rule(ctx, "R2.nucleotide-text-normalised")
-    number_and_wrap_rules(ctx)
-    fasta_append_rules(ctx, "R1")
-    text_layer_rules(ctx, "R1")
-    # the convenience writers store every sequence they are given: a store that each iteration makes into the SAME key keeps the last
-    from ..lints import loop_updates_kept
-    loop_updates_kept(ctx, "sequence/io/general.py", "R1.every-sequence-stored", 1)
-    # ---------------- R1 coupling -----------------------------------------
+def lines_index_coupling(ctx, classes=None, prefix="R1", floor=12):
+    """every method that changes the line list of a file object brings the index computed from the lines up to date (shared: the
+    alignment converters of C11 stand on FastaFile's index as well)"""
     n_w = 0
     for cls, (rel, fields, reindexer) in COUPLED.items():
+        if classes is not None and cls not in classes:
+            continue
         src = ctx.src(rel)
         meths = src.methods(cls)
         ctx.need(reindexer in meths, f"{cls}.{reindexer}")
@@ -297,6 +297,33 @@ def run(ctx):
                         if isinstance(c, ast.Call) and (call_name(c) or "") in ("self.append", "self.insert"):
                             U.add(n.id)
             dom = g.dominators()
+            # a write in the MIDDLE of the list (insert, delete, slice assignment, ..) moves every later line: all positions the index
+            # holds are stale, and only the re-indexer (or a sibling mutator that calls it) brings all of them up to date.  An update
+            # of single index entries is enough only for text added at the end
+            U_full = {n.id for n in g.nodes if n.ast is not None and n.kind == "stmt" and any(
+                isinstance(c, ast.Call) and (isinstance(c.func, ast.Attribute) and c.func.attr == reindexer or (call_name(c) or "") in ("self.append", "self.insert"))
+                for c in ast.walk(n.ast))}
+            for w in W:
+                kind_ = lines_writes(w.ast, base)
+                if kind_ in ("append", "extend") or isinstance(w.ast, ast.AugAssign) or (cls, name) in SHIFTING_UPDATES:
+                    continue
+                n_w += 1
+
+                def covered(U_):
+                    return w.id in U_ or any(u in dom.get(w.id, set()) for u in U_) or \
+                        (bool(g.succ[w.id]) and all(b in U_ or g.path(b, g.exit.id, blocked=U_) is None for b in g.succ[w.id]))
+                full_ = w.id in U_full or (bool(g.succ[w.id]) and all(b in U_full or g.path(b, g.exit.id, blocked=U_full) is None for b in g.succ[w.id]))
+                # without the re-indexer: is there at least SOME update of every field on every way out?
+                per_field_ = {fld_: {n.id for n in g.nodes if n.ast is not None and n.kind == "stmt" and index_update(n.ast, base, {fld_}, reindexer)}
+                              for fld_ in fields}
+                stale_ = sorted(fld_ for fld_, U_ in per_field_.items() if not covered(U_ | U_full))
+                ctx.ob(f"{prefix}.middle-write-reindexed", rel, f"{cls}.{name}", w.ast, full_ or not stale_,
+                       f"{cls}.{name} inserts, deletes or replaces lines in the middle of the text: every position behind that place moves, but "
+                       f"{stale_} is neither shifted nor rebuilt by {reindexer}() on every way out", w.line)
+                # an update that is not the re-indexer may or may not shift every later entry (and a re-index under a condition may or may
+                # not be taken whenever something moves): that is arithmetic on positions this rule cannot follow
+                ctx.cannot_decide(full_ or bool(stale_), f"{cls}.{name}: lines are changed in the middle and the index is brought up to date by hand "
+                                                f"(not by {reindexer}() on every way out) - whether every later position is shifted cannot be decided here")
             for w in W:
                 n_w += 1
                 if w.id in U:
@@ -312,12 +339,45 @@ def run(ctx):
                     ok = before or after
                 # __init__ creating the initial list is followed by its own indexing
                 ctx.ob(
-                    "R1.lines-index-coupled", rel, f"{cls}.{name}", w.ast, ok,
+                    f"{prefix}.lines-index-coupled", rel, f"{cls}.{name}", w.ast, ok,
                     f"{cls}.{name} changes the line list but neither updates {sorted(fields)} nor "
                     f"calls {reindexer}() on every path: the parsed view no longer matches the text",
                     w.line,
                 )
-    ctx.floor("line-list-mutations", n_w, 12)
+    ctx.floor("line-list-mutations", n_w, floor)
+
+
+def fastq_readers_agree(ctx, rule):
+    """FastqFile has two readers of the same text: `_find_entries` (index of a file object) and `read_iter` (streaming).  Both step the same
+    state - in the sequence, in the scores, the two lengths, the identifier - through the lines; they must step it alike (a score line that
+    starts with '@' is no header in either, the entry ends when the score length reaches the sequence length in both)"""
+    from .. import machine
+    src = ctx.src(FASTQ)
+    loops = []
+    for q in ("FastqFile._find_entries", "FastqFile.read_iter"):
+        f = src.func(q)
+        lp = [st for st in f.body if isinstance(st, ast.For)]
+        ctx.need(len(lp) == 1, f"the line loop of {q}")
+        loops.append(lp[0])
+    tracked = machine.assigned_names(loops[0]) & machine.assigned_names(loops[1])
+    ctx.need({"in_sequence", "in_scores", "seq_len", "score_len"} <= tracked, "the shared parser state of the two FASTQ readers")
+    ok, diff = machine.same_machines(loops[0].body, loops[1].body, tracked)
+    ctx.ob(rule, FASTQ, "FastqFile.read_iter", f"_find_entries and read_iter step {sorted(tracked)} alike", ok,
+           "the two readers of the same text disagree on what a line does to the parser state: " + diff, loops[1].lineno)
+
+
+def run(ctx):
+    file_mode_rules(ctx, "R1")
+    fastq_readers_agree(ctx, "R3.fastq-readers-agree")
+    rna_spelling_rules(ctx)
+    nucleotide_text_rule(ctx, "R2.nucleotide-text-normalised")
+    number_and_wrap_rules(ctx)
+    fasta_append_rules(ctx, "R1")
+    text_layer_rules(ctx, "R1")
+    # the convenience writers store every sequence they are given: a store that each iteration makes into the SAME key keeps the last
+    from ..lints import loop_updates_kept
+    loop_updates_kept(ctx, "sequence/io/general.py", "R1.every-sequence-stored", 1)
+    lines_index_coupling(ctx)
 
     # ---------------- R2 key normalisation --------------------------------
     for cls, rel, marker in (("FastaFile", FASTA, ">"), ("FastqFile", FASTQ, "@")):
@@ -902,6 +962,10 @@ def run(ctx):
            "inserting a field: the fields from index on must move down by len(new lines)", f.lineno)
 
 MUTANTS = [
+    Mutant("fastq-stream-header-inside-scores", FASTQ, "            if not in_scores and not in_sequence and line[0] == \"@\":\n                # Track new entry",
+           "            if not in_sequence and line[0] == \"@\":\n                # Track new entry", "R3.fastq-readers-agree"),
+    Mutant("fastq-index-entry-ends-late", FASTQ, "                elif score_len == seq_len:\n                    # End of scores\n                    # -> End of entry\n                    score_stop_i = i + 1",
+           "                elif score_len >= seq_len:\n                    # End of scores\n                    # -> End of entry\n                    score_stop_i = i + 1", "R3.fastq-readers-agree"),
     Mutant("wrap-empty-text-blank-line", "file.py", "    lines = []\n    for i in range(0, len(text), width):\n", "    if len(text) <= width:\n        return [text]\n    lines = []\n    for i in range(0, len(text), width):\n",
            "R2.wrap-is-the-slices"),
     Mutant("gff-score-six-digits", GFF, '        score = str(score) if score is not None else "."\n', '        score = f"{score:g}" if score is not None else "."\n', "R4.number-text-exact"),
